@@ -379,25 +379,37 @@ fn std_bits(h: &StdHeader, scal: bool, prev: &Inherited) -> BitWriter {
 /// Check one standard header, optionally after a previous header (which is parsed first by the
 /// code under test to obtain the `previous_picture` argument).
 pub fn check_std(h: &StdHeader, scal: bool, prev_h: Option<&StdHeader>) -> Result<&'static str, String> {
+    match prev_h {
+        None => check_chain(std::slice::from_ref(h), scal),
+        Some(p) => check_chain(&[p.clone(), h.clone()], scal),
+    }
+}
+
+/// Parse a chain of standard headers, each with the *parsed* predecessor as `previous_picture`
+/// (as the decoder does). All but the last must be valid; the class of the last is returned.
+/// OPPTYPE modes stay in force across any number of headers that do not retransmit them.
+pub fn check_chain(chain: &[StdHeader], scal: bool) -> Result<&'static str, String> {
     let opts = options(Mode::Standard, scal);
     let mut prev_pic: Option<hk::Picture> = None;
     let mut inh = Inherited::default();
-    if let Some(ph) = prev_h {
-        let pb = std_bits(ph, scal, &Inherited::default());
-        let exp = expect_std(ph, scal, &Inherited::default());
-        if !matches!(exp, Expected::Fields(_)) {
-            panic!("HARNESS: previous header must be valid");
+    let mut class = "excluded";
+    for (i, h) in chain.iter().enumerate() {
+        let last = i + 1 == chain.len();
+        let bits = std_bits(h, scal, &inh);
+        let exp = expect_std(h, scal, &inh);
+        if !last && !matches!(exp, Expected::Fields(_)) {
+            panic!("HARNESS: every header of a chain but the last must be valid: {:?}", h);
         }
-        let parsed = judge(&pb, opts, None, &exp, &|| format!("previous header {:?}", ph))?;
-        prev_pic = parsed.picture;
-        inh.mode_bits = Some(ph.mode_bits_in_force(&Inherited::default()));
+        let parsed = judge(&bits, opts, prev_pic.as_ref(), &exp, &|| {
+            format!("standard header {} of a chain of {} ({:?}; scalability {}; modes in force before it {:?})", i + 1, chain.len(), h, scal, inh.mode_bits)
+        })?;
+        class = parsed.class;
+        if let Some(p) = parsed.picture {
+            prev_pic = Some(p);
+        }
+        inh.mode_bits = Some(h.mode_bits_in_force(&inh));
     }
-    let bits = std_bits(h, scal, &inh);
-    let exp = expect_std(h, scal, &inh);
-    let parsed = judge(&bits, opts, prev_pic.as_ref(), &exp, &|| {
-        format!("standard header {:?} (scalability {}, previous header {})", h, scal, if prev_h.is_some() { "given" } else { "none" })
-    })?;
-    Ok(parsed.class)
+    Ok(class)
 }
 
 // ---------------------------------------------------------------------------------------------
@@ -703,6 +715,18 @@ fn sweep_opptype(i: u64, acc: &mut Acc) {
             if !acc_result(acc, check_std(&h, false, Some(&prev_h)), || json!({"kind":"params","sweep":"inherit","bits":i,"code":code})) {
                 return;
             }
+            // three and four levels: the modes must survive any number of non-retransmitting headers
+            let mut h2 = h.clone();
+            h2.tr = h.tr.wrapping_add(1);
+            h2.quant = (h.quant + 7) % 32;
+            if matches!(expect_std(&h, false, &Inherited { mode_bits: Some(i as u32) }), Expected::Fields(_)) {
+                if !acc_result(acc, check_chain(&[prev_h.clone(), h.clone(), h2.clone()], false), || json!({"kind":"params","sweep":"inherit3","bits":i,"code":code})) {
+                    return;
+                }
+                if code == 1 && !acc_result(acc, check_chain(&[prev_h.clone(), h.clone(), h2.clone(), h.clone()], false), || json!({"kind":"params","sweep":"inherit4","bits":i,"code":code})) {
+                    return;
+                }
+            }
         }
     }
     if i == 0b1010010010 {
@@ -921,19 +945,31 @@ fn random_header_case(g: &mut Gen) -> Verdict {
         };
     }
     let scal = g.chance(1, 3);
-    let with_prev = g.chance(1, 2);
-    let mut prev_h = None;
-    if with_prev {
-        // a valid PLUSPTYPE header with OPPTYPE as predecessor (two-level chains: it may itself
-        // be followed by UFEP = 0 headers below)
+    // chain of 0..=3 valid PLUSPTYPE predecessors: the first carries OPPTYPE, later ones mostly not
+    let n_prev = g.weighted(&[4, 3, 2, 1]);
+    let mut chain: Vec<StdHeader> = Vec::new();
+    let mut inh_gen = Inherited::default();
+    for k in 0..n_prev {
         let mut ph = gen_std_header(g, true);
-        if let Kind::Plus(p) = &mut ph.kind {
-            p.ufep = 1;
-        } else {
-            ph.kind = Kind::Plus(base_plus());
+        match &mut ph.kind {
+            Kind::Plus(p) => {
+                if k == 0 {
+                    p.ufep = 1;
+                } else {
+                    p.ufep = if g.chance(1, 4) { 1 } else { 0 };
+                }
+            }
+            _ => {
+                let mut p = base_plus();
+                p.ufep = if k == 0 { 1 } else { 0 };
+                ph.kind = Kind::Plus(p);
+            }
         }
-        if matches!(expect_std(&ph, scal, &Inherited::default()), Expected::Fields(_)) {
-            prev_h = Some(ph);
+        if matches!(expect_std(&ph, scal, &inh_gen), Expected::Fields(_)) {
+            inh_gen.mode_bits = Some(ph.mode_bits_in_force(&inh_gen));
+            chain.push(ph);
+        } else {
+            break;
         }
     }
     let mut h = gen_std_header(g, true);
@@ -970,19 +1006,35 @@ fn random_header_case(g: &mut Gen) -> Verdict {
             }
         }
     }
-    g.describe(|| json!({"header": format!("{:?}", h), "scalability_option": scal, "previous": prev_h.as_ref().map(|p| format!("{:?}", p))}));
-    let inh = Inherited { mode_bits: prev_h.as_ref().map(|p| p.mode_bits_in_force(&Inherited::default())) };
+    g.describe(|| json!({"header": format!("{:?}", h), "scalability_option": scal, "predecessors": chain.iter().map(|p| format!("{:?}", p)).collect::<Vec<_>>()}));
+    let inh = inh_gen.clone();
     let key = {
+        let mut k = 0u64;
+        let mut run = Inherited::default();
+        for p in &chain {
+            let b = std_bits(p, scal, &run);
+            k = k.rotate_left(9) ^ fnv64(&b.to_bytes()) ^ b.len() as u64;
+            run.mode_bits = Some(p.mode_bits_in_force(&run));
+        }
         let b = std_bits(&h, scal, &inh);
-        fnv64(&b.to_bytes()) ^ ((b.len() as u64) << 40) ^ scal as u64 ^ ((inh.mode_bits.unwrap_or(0x7FF) as u64) << 20)
+        k.rotate_left(9) ^ fnv64(&b.to_bytes()) ^ ((b.len() as u64) << 40) ^ scal as u64
     };
-    match check_std(&h, scal, prev_h.as_ref()) {
+    let n_chain = chain.len();
+    chain.push(h.clone());
+    match check_chain(&chain, scal) {
         Ok(c) => {
             let mut l: Labels = vec!["standard", c];
             if let Kind::Plus(p) = &h.kind {
                 l.push(if p.ufep == 0 { "UFEP=0" } else { "UFEP=1" });
-                if p.ufep == 0 && prev_h.is_some() {
-                    l.push("inherits modes from previous header");
+                if p.ufep == 0 && n_chain > 0 {
+                    l.push("inherits modes from earlier header");
+                }
+                if p.ufep == 0 && n_chain >= 2 {
+                    if let Kind::Plus(pp) = &chain[n_chain - 1].kind {
+                        if pp.ufep == 0 {
+                            l.push("inherits across two or more non-retransmitting headers");
+                        }
+                    }
                 }
             } else {
                 l.push("baseline PTYPE");
@@ -1107,7 +1159,7 @@ pub fn run(ctx: &Ctx) -> i32 {
     reports.push(exhaustive_suite(ctx, "cpfmt_all_pwi_phi", 512, &sweep_cpfmt));
     reports.push(simple_suite("plusptype_follower_fields", true, sweep_plus_misc));
     let cases = ctx.tier.pick(300_000u64, 20_000_000u64);
-    reports.push(tape_suite(ctx, "random_cross_products", cases, 96, &random_header_case));
+    reports.push(tape_suite(ctx, "random_cross_products", cases, 260, &random_header_case));
     let cfg = PicCfg { max_dim: 64, max_fixed_mbs: 48, budget: 400, extreme_aspect: false, ..PicCfg::quick() };
     let scases = ctx.tier.pick(20_000u64, 300_000u64);
     reports.push(tape_suite(ctx, "decoded_picture_reports_header", scases, 4096, &move |g| state_case(g, &cfg)));
@@ -1115,7 +1167,7 @@ pub fn run(ctx: &Ctx) -> i32 {
         ctx,
         reports,
         Summary {
-            rule: "Headers are written by the harness from a header AST per clause 5.1 / the Sorenson layout, followed by a 32-bit sentinel, and parsed with parser::decode_picture. Oracle: every public field equals the encoded value, the sentinel is the next thing read (exact consumption), UFEP=0 headers report the previous header's OPPTYPE modes and no format, GN != 0 gives 'not a picture', every wrong marker / forbidden value is rejected without consuming. Exhaustive single-field sweeps (all 256x256 Sorenson 8-bit sizes, all 32 PTYPE low-bit patterns, all 2^10 OPPTYPE mode patterns x 8 formats, all 512x288 PWI/PHI pairs, all TRP, CPCFC x ETR, ...) plus tape-generated cross products with and without a previous header; decoded_picture_reports_header checks TR/type/PQUANT/deblocking flag/size of get_last_picture() incl. PLUSPTYPE custom formats and a following format-less P picture. Non-trivial = every judged header (accepted-and-compared or rejected); distinct by header bits.",
+            rule: "Headers are written by the harness from a header AST per clause 5.1 / the Sorenson layout, followed by a 32-bit sentinel, and parsed with parser::decode_picture. Oracle: every public field equals the encoded value, the sentinel is the next thing read (exact consumption), UFEP=0 headers report the OPPTYPE modes in force (chains of up to four headers, each parsed with its parsed predecessor) and no format, GN != 0 gives 'not a picture', every wrong marker / forbidden value is rejected without consuming. Exhaustive single-field sweeps (all 256x256 Sorenson 8-bit sizes, all 32 PTYPE low-bit patterns, all 2^10 OPPTYPE mode patterns x 8 formats, all 512x288 PWI/PHI pairs, all TRP, CPCFC x ETR, ...) plus tape-generated cross products with and without a previous header; decoded_picture_reports_header checks TR/type/PQUANT/deblocking flag/size of get_last_picture() incl. PLUSPTYPE custom formats and a following format-less P picture. Non-trivial = every judged header (accepted-and-compared or rejected); distinct by header bits.",
             assumptions: vec![
                 "clause 5.1 field layout as recalled (cross-read against FFmpeg's h263 header parser)".into(),
                 "excluded from assertion (counted as class 'excluded'): RPR bit and BCI=1 (UnimplementedDecoding by design), layer numbers without PLUSPTYPE, PHI outside 1..=288".into(),
